@@ -536,7 +536,8 @@ RecvReestablish(e, nextLocal, nextRemote, nf, nfcs, cfl) ==
   /\ neg' = [neg EXCEPT ![e] =
         IF nf = 0 THEN @
         ELSE IF @.st = "sign" /\ @.tx \in {0, nf}
-             THEN [@ EXCEPT !.tx = nf, !.redoCS = nfcs, !.redoSigs = neg[e].sentSigs]      \* the peer lacks our signatures
+             \* the peer lacks our signatures (and says whether our commitment_signed for it has arrived)
+             THEN [@ EXCEPT !.tx = nf, !.redoCS = nfcs, !.redoSigs = neg[e].sentSigs, !.sentCS = (@ \/ ~nfcs)]
         ELSE IF (\E k \in cands[e] : k.tx = nf) \/ fund[e].tx = nf
              THEN [NoNeg EXCEPT !.tx = nf, !.redoSigs = TRUE]                         \* complete here: send them again
         ELSE [@ EXCEPT !.abortOK = TRUE, !.drain = TRUE]]      \* unknown here: tx_abort (and what the peer still sends for it is dropped)
@@ -573,16 +574,27 @@ Restart(E, P, S, M) ==
 
 \* ------------------------------------------------------------ monitor-update pipeline (C09)
 \* renegT: the funding transactions whose scope this update records (RenegotiatedFunding)
-Persist(e, uid, inprogress, cpNums, holderNums, preHashes, renegT) ==
-  /\ G9(uid = mon[e].last + 1)
-  /\ mon' = [mon EXCEPT ![e] =
+MonAfter(e, uid, inprogress, cpNums, holderNums, preHashes, renegT) ==
+  [mon EXCEPT ![e] =
        [last |-> uid,
         infl |-> IF inprogress THEN @.infl \cup {uid} ELSE @.infl,
         cp |-> [n \in DOMAIN @.cp \cup cpNums |-> IF n \in cpNums THEN uid ELSE @.cp[n]],
         holder |-> [n \in DOMAIN @.holder \cup holderNums |-> IF n \in holderNums THEN uid ELSE @.holder[n]],
         pre |-> [h \in DOMAIN @.pre \cup preHashes |-> IF h \in DOMAIN @.pre THEN @.pre[h] ELSE uid],
         reneg |-> [t \in DOMAIN @.reneg \cup renegT |-> IF t \in renegT THEN uid ELSE @.reneg[t]]]]
+Persist(e, uid, inprogress, cpNums, holderNums, preHashes, renegT) ==
+  /\ G9(uid = mon[e].last + 1)
+  /\ mon' = MonAfter(e, uid, inprogress, cpNums, holderNums, preHashes, renegT)
   /\ Unch(<<par, fund, cnt, hs, base, link, redo, lastCS, order, pts, ownExp, qs, neg, cands, lk, cv, txc>>)
+\* While the peer is away a node whose peer has already sent splice_locked(T) sees T reach the required depth:
+\* it moves to the new funding at once (recording that in its monitor) and says so in its channel_reestablish.
+PersistLockOffline(e, uid, inprogress, T) ==
+  /\ G9(uid = mon[e].last + 1)
+  /\ G1(link[e] \in {"down", "sync"} /\ IsCand(e, T) /\ lk[e].rcvd = T)
+  /\ GN("Depth", Depth(e, T) >= par[e[1]].depth)
+  /\ mon' = MonAfter(e, uid, inprogress, {}, {}, {}, {})
+  /\ Promote(e, T)
+  /\ Unch(<<par, cnt, hs, link, redo, lastCS, order, pts, ownExp, qs, neg, cv, txc>>)
 Complete(e, uid) ==
   /\ mon' = [mon EXCEPT ![e].infl = @ \ {uid}]
   /\ Unch(<<par, fund, cnt, hs, base, link, redo, lastCS, order, pts, ownExp, qs, neg, cands, lk, cv, txc>>)
